@@ -109,7 +109,7 @@ def api_histories(chk, nseg, nmsg, maxlen=14):
 
 
 def sizes(tier):
-    return {'quick': (500, 700, 250), 'thorough': (12000, 9000, 3000)}[tier]      # low-level, segment histories, message histories
+    return {'quick': (1200, 3000, 1200), 'thorough': (12000, 9000, 3000)}[tier]      # low-level, segment histories, message histories
 
 
 def api_size(tier):
